@@ -1440,3 +1440,173 @@ Proof.
   - constructor; [split; simpl; auto|constructor].
   - apply Forall_forall. intros e He. apply in_map_iff in He. destruct He as (w & <- & _). split; simpl; auto.
 Qed.
+
+(* ================================================================== *)
+(* a run that completed on its own is delivered completely by the next   *)
+(* poll that covers the running trials                                   *)
+(* ================================================================== *)
+(* a poll never makes a run live again *)
+Definition fmono (ts ts' : list tr) : Prop :=
+  forall j t', nth_error ts' j = Some t' -> exists t, nth_error ts j = Some t /\ (fin t <> Live -> fin t' <> Live).
+
+Lemma fmono_refl ts : fmono ts ts.
+Proof. intros j t Hj. eauto. Qed.
+Lemma fmono_trans a b c : fmono a b -> fmono b c -> fmono a c.
+Proof.
+  intros H1 H2 j t Hj. destruct (H2 j t Hj) as (t1 & Hj1 & F1). destruct (H1 j t1 Hj1) as (t0 & Hj0 & F0).
+  exists t0. split; auto.
+Qed.
+Lemma fmono_upd i f ts : (forall t, fin t <> Live -> fin (f t) <> Live) -> fmono ts (upd i f ts).
+Proof.
+  intros Hf j t' Hj. apply nth_upd_inv in Hj. destruct Hj as [[N Hj]|[Eij [t [Hj Et]]]]; [eauto|subst].
+  exists t. split; auto.
+Qed.
+Lemma fmono_map f ts : (forall t, fin t <> Live -> fin (f t) <> Live) -> fmono ts (map f ts).
+Proof.
+  intros Hf j t' Hj. rewrite nth_error_map in Hj. destruct (nth_error ts j) as [t|] eqn:E; simpl in Hj; [|discriminate].
+  inversion Hj; subst. exists t. split; auto.
+Qed.
+
+Lemma fetch_generic_fmono ids : forall ts ts' b, fetch_generic ids ts = (ts', b) -> fmono ts ts'.
+Proof.
+  induction ids as [|i r IH]; intros ts ts' b F; simpl in F.
+  - inversion F; subst. apply fmono_refl.
+  - destruct (nth_error ts i); [|eapply IH; eauto].
+    destruct (fetch_generic r _) as [ts2 b2] eqn:F2. inversion F; subst.
+    eapply fmono_trans; [|eapply IH; eauto]. apply fmono_upd. intros t0 N. exact N.
+Qed.
+Lemma fetch_sim_polled_fmono ids : forall ts ts' b, fetch_sim_polled ids ts = (ts', b) -> fmono ts ts'.
+Proof.
+  induction ids as [|i r IH]; intros ts ts' b F; simpl in F.
+  - inversion F; subst. apply fmono_refl.
+  - destruct (nth_error ts i); [|eapply IH; eauto].
+    destruct (fetch_sim_polled r _) as [ts2 b2] eqn:F2. inversion F; subst.
+    eapply fmono_trans; [|eapply IH; eauto]. apply fmono_upd. intros t0 N. exact N.
+Qed.
+Lemma fetch_fmono bk ids ts ts' b : fetch bk ids ts = (ts', b) -> fmono ts ts'.
+Proof.
+  destruct bk; simpl; intros F.
+  - destruct (fetch_generic ids ts) as [ts1 b1] eqn:F1. inversion F; subst. eapply fetch_generic_fmono; eauto.
+  - destruct (fetch_generic ids ts) as [ts1 b1] eqn:F1. inversion F; subst. eapply fetch_generic_fmono; eauto.
+  - unfold fetch_sim in F. destruct (fetch_sim_polled ids ts) as [ts1 b1] eqn:F1. inversion F; subst.
+    eapply fmono_trans; [eapply fetch_sim_polled_fmono; eauto|]. apply fmono_map. intros t N; exact N.
+Qed.
+
+Lemma update_loop_fmono bk batch : forall decs done ts out ts' out' done',
+  update_loop bk batch decs done ts out = (ts', out', done') -> fmono ts ts'.
+Proof.
+  induction batch as [|[i r] rest IH]; intros decs done ts out ts' out' done' F; simpl in F.
+  - inversion F; subst. apply fmono_refl.
+  - destruct (mem_nat i done); [eapply IH; eauto|].
+    destruct (next_dec decs) as [[d late] decs']. destruct d.
+    + eapply fmono_trans; [|eapply IH; exact F]. apply fmono_upd. intros t N; exact N.
+    + eapply fmono_trans; [|eapply IH; exact F].
+      eapply fmono_trans; apply fmono_upd; [intros t N; exact N|intros t _; simpl; discriminate].
+    + destruct (status_eqb (status_at ts i) Completed);
+        (eapply fmono_trans; [|eapply IH; exact F];
+         eapply fmono_trans; apply fmono_upd; [intros t N; exact N|intros t _; simpl; discriminate]).
+Qed.
+
+Lemma observe_fin t : fin t <> Live -> fin (t_observe t) <> Live.
+Proof. intros N. unfold t_observe. destruct (fin t); auto; congruence. Qed.
+Lemma observe_fmono ids : forall ts, fmono ts (observe ids ts).
+Proof.
+  induction ids as [|i r IH]; intros ts; simpl; [apply fmono_refl|].
+  eapply fmono_trans; [|apply IH]. apply fmono_upd. apply observe_fin.
+Qed.
+
+(* what the second loop of _update_running_trials leaves behind for a polled trial *)
+Definition obs_ok (t : tr) : Prop := fin t = Live -> status_of t <> Completed /\ status_of t <> Failed.
+
+Lemma obs_ok_observe t : obs_ok (t_observe t).
+Proof.
+  unfold obs_ok, t_observe. destruct (fin t) eqn:E; try (simpl; congruence).
+  destruct (status_of t) eqn:Es; simpl; try discriminate; rewrite ?E; intros _;
+    replace (status_of t) with (status_of t) by reflexivity; rewrite Es; split; discriminate.
+Qed.
+
+Lemma observe_keeps_ok ids : forall ts j t0, nth_error ts j = Some t0 -> obs_ok t0 ->
+  exists t, nth_error (observe ids ts) j = Some t /\ obs_ok t.
+Proof.
+  induction ids as [|i r IH]; intros ts j t0 Hj H0; simpl; [eauto|].
+  destruct (Nat.eq_dec i j) as [<-|N].
+  - apply (IH _ i (t_observe t0)); [apply nth_upd_same; auto|apply obs_ok_observe].
+  - apply (IH _ j t0); [rewrite nth_upd_other; auto|auto].
+Qed.
+
+Lemma observe_polled_ok ids : forall ts j t0, In j ids -> nth_error ts j = Some t0 ->
+  exists t, nth_error (observe ids ts) j = Some t /\ obs_ok t.
+Proof.
+  induction ids as [|i r IH]; intros ts j t0 Hin Hj; simpl; [destruct Hin|].
+  destruct (Nat.eq_dec i j) as [<-|N].
+  - apply (observe_keeps_ok r _ i (t_observe t0)); [apply nth_upd_same; auto|apply obs_ok_observe].
+  - destruct Hin as [E|Hin]; [congruence|]. apply (IH _ j t0); auto. rewrite nth_upd_other; auto.
+Qed.
+
+Lemma observe_length ids : forall ts, length (observe ids ts) = length ts.
+Proof. induction ids; intros; simpl; auto. rewrite IHids, upd_length. reflexivity. Qed.
+
+(* one covering poll, any backend kind: afterwards no polled-or-covered trial is live with a final status *)
+Lemma poll_leaves_no_final_live bk st ids decs st' :
+  (forall j t, nth_error (trials st) j = Some t -> fin t = Live -> In j ids) ->
+  step bk st (Poll ids decs) = (st', None) ->
+  forall j t', nth_error (trials st') j = Some t' -> obs_ok t'.
+Proof.
+  intros Hcov F j t' Hj. simpl in F.
+  destruct (ids_ok (trials st) ids); [|discriminate].
+  destruct (fetch bk ids (trials st)) as [ts1 b] eqn:Ef.
+  destruct (update_loop bk b decs [] ts1 (out st)) as [[ts2 out2] done2] eqn:Eu.
+  inversion F; subst; simpl in *. clear F.
+  assert (M : fmono (trials st) (observe ids ts2)).
+  { eapply fmono_trans; [eapply fetch_fmono; eauto|]. eapply fmono_trans; [eapply update_loop_fmono; eauto|apply observe_fmono]. }
+  destruct (M j t' Hj) as (t0 & Hj0 & Hm).
+  intros Hl. assert (Hl0 : fin t0 = Live) by (destruct (fin t0) eqn:E; auto; exfalso; apply Hm; congruence).
+  pose proof (Hcov j t0 Hj0 Hl0) as Hin.
+  assert (Hj2 : exists t2, nth_error ts2 j = Some t2).
+  { assert (L : j < length ts2) by (rewrite <- (observe_length ids); apply nth_error_Some; congruence).
+    destruct (nth_error ts2 j) eqn:E; eauto. apply nth_error_None in E. lia. }
+  destruct Hj2 as (t2 & Hj2). destruct (observe_polled_ok ids ts2 j t2 Hin Hj2) as (t3 & Hj3 & Hok).
+  rewrite Hj in Hj3. inversion Hj3; subst. apply Hok. exact Hl.
+Qed.
+
+Theorem generic_completed_run_delivered evs ids decs st0 st :
+  Forall good_ev evs -> run Generic init evs = (st0, None) ->
+  (forall j t, nth_error (trials st0) j = Some t -> fin t = Live -> In j ids) ->
+  step Generic st0 (Poll ids decs) = (st, None) ->
+  forall j t, nth_error (trials st) j = Some t -> proc t = ExitOk ->
+    (fin t = DoneOk /\ dcur t = cur t) \/ fin t = Decided.
+Proof.
+  intros Hg F0 Hcov F j t Hj Hp.
+  assert (S0 : SI (trials st0)) by (exact (run_SI evs init st0 None init_SI Hg F0)).
+  assert (S1 : SI (trials st)).
+  { eapply step_SI; [exact S0| |exact F]. split; simpl; auto. }
+  pose proof (S1 j t Hj) as (_ & _ & _ & _ & _ & _ & _ & Hf).
+  pose proof (poll_leaves_no_final_live Generic st0 ids decs st Hcov F j t Hj) as Hok.
+  destruct (fin t) eqn:Ef.
+  - exfalso. destruct Hf as (Hm & _). destruct (Hok eq_refl) as (Hc & _). apply Hc.
+    unfold status_of. rewrite Hm, Hp. reflexivity.
+  - right; reflexivity.
+  - left. split; auto. apply Hf.
+  - exfalso. destruct Hf as (_ & Hpf & _). congruence.
+Qed.
+
+Theorem sim_completed_run_delivered evs ids decs st0 st :
+  run_cov init evs -> run Sim init evs = (st0, None) ->
+  (forall j t, nth_error (trials st0) j = Some t -> fin t = Live -> In j ids) ->
+  step Sim st0 (Poll ids decs) = (st, None) ->
+  forall j t, nth_error (trials st) j = Some t -> proc t = ExitOk ->
+    (fin t = DoneOk /\ dcur t = cur t) \/ fin t = Decided.
+Proof.
+  intros Hg F0 Hcov F j t Hj Hp.
+  assert (S0 : SSI (trials st0)) by (exact (run_SSI evs init st0 None init_SSI Hg F0)).
+  assert (S1 : SSI (trials st)).
+  { eapply step_SSI; [exact S0| |exact F]. split; simpl; auto. }
+  pose proof (S1 j t Hj) as (_ & _ & _ & _ & Hf).
+  pose proof (poll_leaves_no_final_live Sim st0 ids decs st Hcov F j t Hj) as Hok.
+  destruct (fin t) eqn:Ef.
+  - exfalso. destruct Hf as (Hm & _). destruct (Hok eq_refl) as (Hc & _). apply Hc.
+    unfold status_of. rewrite Hm, Hp. reflexivity.
+  - right; reflexivity.
+  - left. split; auto. apply Hf.
+  - exfalso. destruct Hf as (_ & Hpf & _). congruence.
+Qed.
